@@ -2,6 +2,7 @@ import Micm.Lemmas.LUCellBridge
 import Micm.Lemmas.JacobianPattern
 import Micm.Lemmas.Special
 import Micm.Lemmas.RosLoop
+import Micm.Properties.C01
 import Mathlib.Algebra.BigOperators.Group.List.Basic
 import Mathlib.Data.List.Nodup
 
@@ -18,6 +19,7 @@ Lemmas for C12 (configuration independence in exact arithmetic):
 -/
 open Finset
 namespace Micm
+set_option linter.unusedSectionVars false
 variable {K : Type} [Field K]
 
 /-! ## 1. uniqueness of the solution -/
@@ -225,5 +227,665 @@ theorem foldl_add_eq_sum {β : Type} (f : β → K) (l : List β) (init : K) :
   induction l generalizing init with
   | nil => simp
   | cons a l ih => simp only [List.foldl_cons, List.map_cons, List.sum_cons, ih]; ring
+
+/-- `NormalizedError` does not depend on the dense layout (exact arithmetic): the same terms are
+    added, in a different order -/
+theorem normalizedError_layout_indep (o : Ops K) (cs : Consts K) (L nVars : Nat) (atol : Array K)
+    (rtol : K) (y ynew err : Mat K) :
+    normalizedError o cs L nVars atol rtol y ynew err
+      = normalizedError o cs 0 nVars atol rtol y ynew err := by
+  unfold normalizedError
+  simp only []
+  rw [foldl_add_perm (fun cv : Nat × Nat => errTerm o atol rtol y ynew err cv.1 cv.2)
+    (normOrder_perm L y.size nVars) 0]
+
+/-! ## 2. `Factor; Solve` is independent of the linear-algebra configuration -/
+
+/-- `Factor` followed by `Solve` on one cell, for the configured variant (`l0`, `u0`: prior
+    contents of the `L`/`U` storage, unused by the in-place variants) -/
+def LinAlg.factorSolveCell (la : LinAlg) (a l0 u0 b : Array K) : Array K :=
+  match la.kind with
+  | .doolittle =>
+    solveCell la.fw la.bw (doolittleCell la.dRows a (l0, u0)).1 (doolittleCell la.dRows a (l0, u0)).2 b
+  | .mozart =>
+    solveCell la.fw la.bw (mozartCell la.mInit la.mRows a (l0, u0)).1
+      (mozartCell la.mInit la.mRows a (l0, u0)).2 b
+  | .doolittleInPlace => solveInPlaceCell la.fw la.bw (doolittleInPlaceCell la.diRows a) b
+  | .mozartInPlace => solveInPlaceCell la.fw la.bw (mozartInPlaceCell la.miRows a) b
+
+/-- the `i`-th pivot (diagonal element of the computed `U`) of the configured variant -/
+def LinAlg.pivot (la : LinAlg) (a l0 u0 : Array K) (i : Nat) : K :=
+  match la.kind with
+  | .doolittle => view la.Up (doolittleCell la.dRows a (l0, u0)).2 i i
+  | .mozart => view la.Up (mozartCell la.mInit la.mRows a (l0, u0)).2 i i
+  | .doolittleInPlace => view la.A (doolittleInPlaceCell la.diRows a) i i
+  | .mozartInPlace => view la.A (mozartInPlaceCell la.miRows a) i i
+
+/-- the storage sizes the cell theorems need: `L`/`U` storage for the separate variants, the
+    (ALU-pattern) matrix itself for the in-place variants -/
+def LinAlg.SizesOK (la : LinAlg) (a l0 u0 : Array K) : Prop :=
+  match la.kind with
+  | .doolittle | .mozart => l0.size = la.Lp.nnz ∧ u0.size = la.Up.nnz
+  | .doolittleInPlace | .mozartInPlace => a.size = la.A.nnz
+
+/-- the Mozart variants assume a structurally full diagonal (`BuildJacobian` adds it) -/
+def LUKind.needsDiag : LUKind → Bool
+  | .mozart | .mozartInPlace => true
+  | _ => false
+
+theorem build_kind (kind : LUKind) (jac : Pattern) : (LinAlg.build kind jac).kind = kind := by
+  cases kind <;> rfl
+
+theorem build_A_n (kind : LUKind) (jac : Pattern) : (LinAlg.build kind jac).A.n = jac.n := by
+  cases kind <;> rfl
+
+/-- C04 in uniform notation: for every variant, `Factor; Solve` solves `A y = b` -/
+theorem build_factorSolve_spec (kind : LUKind) (jac : Pattern) (n : Nat) (hn : jac.n = n)
+    (hdiag : kind.needsDiag = true → ∀ i, i < n → jac.zero? i i = false)
+    (a l0 u0 b : Array K) (hs : (LinAlg.build kind jac).SizesOK a l0 u0) (hb : b.size = n)
+    (hpiv : ∀ i, i < n → (LinAlg.build kind jac).pivot a l0 u0 i ≠ 0) :
+    ∀ i, i < n → ∑ j ∈ range n, view (LinAlg.build kind jac).A a i j *
+        rd ((LinAlg.build kind jac).factorSolveCell a l0 u0 b) j = rd b i := by
+  subst hn
+  cases kind with
+  | doolittle => exact C04_build_doolittle jac a l0 u0 b hs.1 hs.2 hb hpiv
+  | mozart => exact C04_build_mozart jac (hdiag rfl) a l0 u0 b hs.1 hs.2 hb hpiv
+  | doolittleInPlace => exact C04_build_doolittleInPlace jac a b hs hb hpiv
+  | mozartInPlace => exact C04_build_mozartInPlace jac (hdiag rfl) a b hs hb hpiv
+
+/-- C03 in uniform notation: for every variant the pivots are those of dense Doolittle applied to
+    the logical matrix -/
+theorem build_pivot_eq (kind : LUKind) (jac : Pattern) (n : Nat) (hn : jac.n = n)
+    (hdiag : kind.needsDiag = true → ∀ i, i < n → jac.zero? i i = false)
+    (a l0 u0 : Array K) (hs : (LinAlg.build kind jac).SizesOK a l0 u0) :
+    ∀ i, i < n → (LinAlg.build kind jac).pivot a l0 u0 i
+      = (DenseLU.lu (view (LinAlg.build kind jac).A a) n).U i i := by
+  subst hn
+  intro i hi
+  cases kind with
+  | doolittle => exact (C03_build_doolittle jac a l0 u0 hs.1 hs.2 i i hi hi).2
+  | mozart => exact (C03_build_mozart jac (hdiag rfl) a l0 u0 hs.1 hs.2 i i hi hi).2
+  | doolittleInPlace =>
+    have := C03_build_doolittleInPlace jac a hs i i hi hi
+    rw [if_neg (Nat.lt_irrefl i)] at this
+    exact this
+  | mozartInPlace =>
+    have := C03_build_mozartInPlace jac (hdiag rfl) a hs i i hi hi
+    rw [if_neg (Nat.lt_irrefl i)] at this
+    exact this
+
+/-- the pivots do not depend on the configuration: they are a function of the logical matrix -/
+theorem pivot_config_indep (kind₁ kind₂ : LUKind) (jac₁ jac₂ : Pattern) (n : Nat)
+    (hn₁ : jac₁.n = n) (hn₂ : jac₂.n = n)
+    (hd₁ : kind₁.needsDiag = true → ∀ i, i < n → jac₁.zero? i i = false)
+    (hd₂ : kind₂.needsDiag = true → ∀ i, i < n → jac₂.zero? i i = false)
+    (a₁ l₁ u₁ a₂ l₂ u₂ : Array K)
+    (hs₁ : (LinAlg.build kind₁ jac₁).SizesOK a₁ l₁ u₁) (hs₂ : (LinAlg.build kind₂ jac₂).SizesOK a₂ l₂ u₂)
+    (hview : ∀ r c, r < n → c < n →
+      view (LinAlg.build kind₁ jac₁).A a₁ r c = view (LinAlg.build kind₂ jac₂).A a₂ r c) :
+    ∀ i, i < n → (LinAlg.build kind₁ jac₁).pivot a₁ l₁ u₁ i = (LinAlg.build kind₂ jac₂).pivot a₂ l₂ u₂ i := by
+  intro i hi
+  rw [build_pivot_eq kind₁ jac₁ n hn₁ hd₁ a₁ l₁ u₁ hs₁ i hi,
+    build_pivot_eq kind₂ jac₂ n hn₂ hd₂ a₂ l₂ u₂ hs₂ i hi]
+  exact (lu_congr _ _ n hview n (le_refl n) i i hi hi).2
+
+/-- **configuration independence of `Factor; Solve`** (one cell): two variants (any of the four LU
+    algorithms, built on any two patterns of the same block size) applied to arrays holding the
+    same logical matrix and to the same right-hand side return the same vector, provided no pivot
+    vanishes (stated for the first configuration; it then holds for the second). -/
+theorem factorSolve_config_indep (kind₁ kind₂ : LUKind) (jac₁ jac₂ : Pattern) (n : Nat)
+    (hn₁ : jac₁.n = n) (hn₂ : jac₂.n = n)
+    (hd₁ : kind₁.needsDiag = true → ∀ i, i < n → jac₁.zero? i i = false)
+    (hd₂ : kind₂.needsDiag = true → ∀ i, i < n → jac₂.zero? i i = false)
+    (a₁ l₁ u₁ a₂ l₂ u₂ b : Array K)
+    (hs₁ : (LinAlg.build kind₁ jac₁).SizesOK a₁ l₁ u₁) (hs₂ : (LinAlg.build kind₂ jac₂).SizesOK a₂ l₂ u₂)
+    (hb : b.size = n)
+    (hpiv : ∀ i, i < n → (LinAlg.build kind₁ jac₁).pivot a₁ l₁ u₁ i ≠ 0)
+    (hview : ∀ r c, r < n → c < n →
+      view (LinAlg.build kind₁ jac₁).A a₁ r c = view (LinAlg.build kind₂ jac₂).A a₂ r c) :
+    ∀ j, j < n → rd ((LinAlg.build kind₁ jac₁).factorSolveCell a₁ l₁ u₁ b) j
+      = rd ((LinAlg.build kind₂ jac₂).factorSolveCell a₂ l₂ u₂ b) j := by
+  have hpiv₂ : ∀ i, i < n → (LinAlg.build kind₂ jac₂).pivot a₂ l₂ u₂ i ≠ 0 := fun i hi => by
+    rw [← pivot_config_indep kind₁ kind₂ jac₁ jac₂ n hn₁ hn₂ hd₁ hd₂ a₁ l₁ u₁ a₂ l₂ u₂ hs₁ hs₂ hview i hi]
+    exact hpiv i hi
+  have e₁ := build_factorSolve_spec kind₁ jac₁ n hn₁ hd₁ a₁ l₁ u₁ b hs₁ hb hpiv
+  have e₂ := build_factorSolve_spec kind₂ jac₂ n hn₂ hd₂ a₂ l₂ u₂ b hs₂ hb hpiv₂
+  have hlu : DenseLU.IsLU n (view (LinAlg.build kind₁ jac₁).A a₁)
+      (DenseLU.lu (view (LinAlg.build kind₁ jac₁).A a₁) n).L
+      (DenseLU.lu (view (LinAlg.build kind₁ jac₁).A a₁) n).U :=
+    DenseLU.lu_isLU _ n (fun i hi => by
+      rw [← build_pivot_eq kind₁ jac₁ n hn₁ hd₁ a₁ l₁ u₁ hs₁ i hi]; exact hpiv i hi)
+  refine lu_injective n _ _ _ hlu (fun i hi => ?_) _ _ (fun i hi => ?_)
+  · rw [← build_pivot_eq kind₁ jac₁ n hn₁ hd₁ a₁ l₁ u₁ hs₁ i hi]; exact hpiv i hi
+  · rw [e₁ i hi, ← e₂ i hi]
+    apply sum_congr rfl
+    intro j hj
+    rw [hview i j hi (mem_range.mp hj)]
+
+/-! ### sizes -/
+
+theorem cfg_subRowFold_size (M : Array K) (t : Nat) (ps : List (Nat × Nat)) (x : Array K) :
+    (ps.foldl (fun x p => wr x t (rd x t - rd M p.1 * rd x p.2)) x).size = x.size := by
+  induction ps generalizing x with
+  | nil => rfl
+  | cons p ps ih => simp only [List.foldl_cons, ih, wr_size]
+
+theorem foldl_step_size (step : Array K × Nat → SubRow → Array K × Nat)
+    (hstep : ∀ s r, (step s r).1.size = s.1.size) (rows : List SubRow) (s : Array K × Nat) :
+    (rows.foldl step s).1.size = s.1.size := by
+  induction rows generalizing s with
+  | nil => rfl
+  | cons r rows ih => simp only [List.foldl_cons, ih, hstep]
+
+theorem solveCell_size (fw bw : List SubRow) (L U x : Array K) :
+    (solveCell fw bw L U x).size = x.size := by
+  rw [solveCell_eq, foldl_step_size (bwStep U) (fun s r => by simp [bwStep, cfg_subRowFold_size, wr_size]),
+    foldl_step_size (fwStep L) (fun s r => by simp [fwStep, cfg_subRowFold_size, wr_size])]
+
+theorem solveInPlaceCell_size (fw bw : List SubRow) (M x : Array K) :
+    (solveInPlaceCell fw bw M x).size = x.size := by
+  rw [solveInPlaceCell_eq,
+    foldl_step_size (bwStep M) (fun s r => by simp [bwStep, cfg_subRowFold_size, wr_size]),
+    foldl_step_size (fwStepIP M) (fun s r => by simp [fwStepIP, cfg_subRowFold_size])]
+
+theorem factorSolveCell_size (la : LinAlg) (a l0 u0 b : Array K) :
+    (la.factorSolveCell a l0 u0 b).size = b.size := by
+  unfold LinAlg.factorSolveCell
+  split <;> first | exact solveCell_size _ _ _ _ _ | exact solveInPlaceCell_size _ _ _ _
+
+/-! ### the model's `factor` / `linSolve` on whole matrices -/
+
+/-- cell `c` of `linSolve` after `factor` is `factorSolveCell` of cell `c` of the inputs -/
+theorem linSolve_factor_getD (s : SolverCfg K) (J Lo Up x : Mat K) (c : Nat) (hc : c < x.size)
+    (hcJ : c < J.size) :
+    (s.linSolve (s.factor J Lo Up).1 (s.factor J Lo Up).2.1 (s.factor J Lo Up).2.2 x).getD c #[]
+      = s.la.factorSolveCell (J.getD c #[]) (Lo.getD c #[]) (Up.getD c #[]) (x.getD c #[]) := by
+  unfold SolverCfg.linSolve SolverCfg.factor LinAlg.factorSolveCell
+  cases hk : s.la.kind <;> simp [LUKind.inPlace, Array.getD, hc, hcJ]
+
+theorem linSolve_size (s : SolverCfg K) (J Lo Up x : Mat K) : (s.linSolve J Lo Up x).size = x.size := by
+  unfold SolverCfg.linSolve
+  split <;> simp
+
+/-! ## 3. the logical view of the Jacobian does not depend on the pattern that stores it -/
+
+/-- the formal partial derivative `∂f_i/∂y_j` of the mass-action forcing (the right-hand side of
+    C02's theorems, `jacNet`/`dMonomial` of `Micm/Lemmas/Jacobian.lean`) -/
+def jacEntrySpec (procs : List (Process K)) (m : NameMap) (k y : Array K) (i j : Nat) : K :=
+  (procs.zipIdx.map fun pi =>
+    jacNet (specReactIds m pi.1.reactants) (specProdIds m pi.1.products) i
+      * (rd k pi.2 * dMonomial (rd y) (specReactIds m pi.1.reactants) j)).sum
+
+/-- outside `NonZeroJacobianElements` the formal derivative vanishes identically -/
+theorem jacEntrySpec_eq_zero (procs : List (Process K)) (m : NameMap) (t : PSTables K)
+    (hb : ProcessSet.build procs m = .ok t) (k y : Array K) (i j : Nat)
+    (h : (i, j) ∉ t.nonZeroJacobianElements) : jacEntrySpec procs m k y i j = 0 := by
+  unfold jacEntrySpec
+  apply jac_sum_map_zero
+  intro pi hpi
+  have hp : pi.1 ∈ procs := List.fst_mem_of_mem_zipIdx hpi
+  have hno := mt (mem_nonZero_of_build procs m t hb (i, j)).mpr h
+  by_cases hj : j ∈ specReactIds m pi.1.reactants
+  · have hi1 : i ∉ specReactIds m pi.1.reactants := fun hi => hno ⟨pi.1, hp, hj, Or.inl hi⟩
+    have hi2 : i ∉ (specProdIds m pi.1.products).map (·.1) := fun hi => hno ⟨pi.1, hp, hj, Or.inr hi⟩
+    have hf : (specProdIds m pi.1.products).filter (fun p => p.1 = i) = [] := by
+      rw [List.filter_eq_nil_iff]
+      intro a ha hai
+      exact hi2 (List.mem_map.mpr ⟨a, ha, by simpa using hai⟩)
+    simp [jacNet, hf, List.count_eq_zero_of_not_mem hi1]
+  · rw [dMonomial_of_not_mem _ _ _ hj]; ring
+
+/-- **the logical Jacobian, on every pattern.**  For a successfully built process set and *any*
+    well-formed element set `set'` that contains the declared elements (the builder's
+    `BuildJacobian` set, or the fill-closed ALU set of an in-place LU), CSR or CSC, any group
+    length: `SetJacobianFlatIds` succeeds and `SubtractJacobianTerms` on a zeroed block leaves a
+    block whose logical view is `−∂f_r/∂y_c` at *every* position `(r, c)` of the `n × n` block
+    (structural zeros and fill-in slots included: there the derivative is identically `0`). -/
+theorem jacobian_view (procs : List (Process K)) (m : NameMap) (t : PSTables K)
+    (hb : ProcessSet.build procs m = .ok t)
+    (hk : (m.map (·.1)).Nodup) (hv : (m.map (·.2)).Nodup)
+    (hparam : ∀ p ∈ procs, ∀ r ∈ p.reactants, r.param = true → nmLookup m r.name = none)
+    (n : Nat) (csc : Bool) (L : Nat) (set' : List Pair) (hw : WF n set')
+    (hsup : ∀ x ∈ t.nonZeroJacobianElements, x ∈ set') :
+    ∃ flat, t.jacobianFlatIds (Pattern.mk' n csc L set') = .ok flat ∧
+      ∀ (k y : Array K) (r c : Nat),
+        view (Pattern.mk' n csc L set')
+          (t.subtractJacobianCell flat k y (Array.replicate (Pattern.mk' n csc L set').nnz 0)) r c
+          = - jacEntrySpec procs m k y r c := by
+  have hg := good_mk hw csc L
+  have hpres : ∀ r c, (r, c) ∈ set' → ∃ q, (Pattern.mk' n csc L set').rank r c = .ok q :=
+    fun r c h => (zero?_false_iff_rank _ r c).mp ((zero?_mk_iff hw csc L r c).mpr h)
+  obtain ⟨flat, hflat⟩ := C02_flatids_defined procs m t hb hk hparam (Pattern.mk' n csc L set')
+    (fun x hx => hpres x.1 x.2 (hsup x hx))
+  refine ⟨flat, hflat, fun k y r c => ?_⟩
+  cases hz : (Pattern.mk' n csc L set').zero? r c
+  · obtain ⟨q, hq⟩ := (zero?_false_iff_rank _ r c).mp hz
+    rw [view_present _ _ _ _ hz, rk_of_rank hq]
+    exact C02_jacobian_zero procs m t hb hk hv hparam _ flat hflat
+      (fun _ _ _ _ _ h1 h2 => hg.rank_inj h1 h2) k y _ (fun _ _ _ h => hg.rank_lt h) r c q hq
+  · rw [view_absent _ _ _ _ hz]
+    have hns : (r, c) ∉ set' := fun h => by
+      have := (zero?_mk_iff hw csc L r c).mpr h
+      rw [hz] at this; cases this
+    rw [jacEntrySpec_eq_zero procs m t hb k y r c (fun h => hns (hsup _ h)), neg_zero]
+
+/-- the element sets `LinAlg.build` stores the Jacobian in: the declared set itself for the
+    separate-storage variants, the ALU set for the in-place variants -/
+def aluSet (kind : LUKind) (jac : Pattern) : List Pair :=
+  match kind with
+  | .doolittle | .mozart => []
+  | .doolittleInPlace => doolittleInPlaceSymbolic jac.n (fun r c => jac.zero? r c)
+  | .mozartInPlace => mozartInPlaceSymbolic jac.n (fun r c => jac.zero? r c)
+
+/-- the pattern of `state.jacobian_` for each variant, as an explicit `Pattern.mk'` -/
+theorem build_A_eq (kind : LUKind) (n : Nat) (csc : Bool) (L : Nat) (set : List Pair) :
+    (LinAlg.build kind (Pattern.mk' n csc L set)).A =
+      Pattern.mk' n csc L (if kind.inPlace then aluSet kind (Pattern.mk' n csc L set) else set) := by
+  cases kind <;> rfl
+
+theorem aluSet_wf_sup (kind : LUKind) (hip : kind.inPlace = true) (n : Nat) (csc : Bool) (L : Nat)
+    (set : List Pair) (hw : WF n set) :
+    WF n (aluSet kind (Pattern.mk' n csc L set)) ∧
+      ∀ x ∈ set, x ∈ aluSet kind (Pattern.mk' n csc L set) := by
+  cases kind with
+  | doolittle => cases hip
+  | mozart => cases hip
+  | doolittleInPlace =>
+    refine ⟨wf_doolittleInPlaceSymbolic n _, fun x hx => ?_⟩
+    obtain ⟨h1, h2⟩ := hw.range x hx
+    exact doolittleInPlaceSymbolic_support n _ x.1 x.2 h1 h2 ((zero?_mk_iff hw csc L x.1 x.2).mpr hx)
+  | mozartInPlace =>
+    refine ⟨wf_mozartInPlaceSymbolic n _, fun x hx => ?_⟩
+    obtain ⟨h1, h2⟩ := hw.range x hx
+    exact mozartInPlaceSymbolic_support n _ x.1 x.2 h1 h2 ((zero?_mk_iff hw csc L x.1 x.2).mpr hx)
+
+/-- the Jacobian that `LinAlg.build kind` stores (declared pattern for the separate-storage
+    variants, ALU pattern for the in-place ones; CSR or CSC; any `L`) has the same logical view:
+    `−∂f_r/∂y_c` everywhere on the block -/
+theorem jacobian_view_build (procs : List (Process K)) (m : NameMap) (t : PSTables K)
+    (hb : ProcessSet.build procs m = .ok t)
+    (hk : (m.map (·.1)).Nodup) (hv : (m.map (·.2)).Nodup)
+    (hparam : ∀ p ∈ procs, ∀ r ∈ p.reactants, r.param = true → nmLookup m r.name = none)
+    (n : Nat) (hn : ∀ e ∈ m, e.2 < n) (kind : LUKind) (csc : Bool) (L : Nat) :
+    ∃ flat, t.jacobianFlatIds (LinAlg.build kind
+        (Pattern.mk' n csc L (buildJacobianSet n t.nonZeroJacobianElements))).A = .ok flat ∧
+      ∀ (k y : Array K) (r c : Nat),
+        view (LinAlg.build kind (Pattern.mk' n csc L (buildJacobianSet n t.nonZeroJacobianElements))).A
+          (t.subtractJacobianCell flat k y (Array.replicate (LinAlg.build kind
+            (Pattern.mk' n csc L (buildJacobianSet n t.nonZeroJacobianElements))).A.nnz 0)) r c
+          = - jacEntrySpec procs m k y r c := by
+  have hw : WF n (buildJacobianSet n t.nonZeroJacobianElements) :=
+    jac_buildJacobianSet_WF procs m t hb n hn
+  have hsup : ∀ x ∈ t.nonZeroJacobianElements, x ∈ buildJacobianSet n t.nonZeroJacobianElements :=
+    fun x hx => (jac_mem_buildJacobianSet n _ x).mpr (Or.inl hx)
+  rw [build_A_eq]
+  cases hip : kind.inPlace
+  · simp only [Bool.false_eq_true, if_false]
+    exact jacobian_view procs m t hb hk hv hparam n csc L _ hw hsup
+  · simp only [if_true]
+    obtain ⟨hw', hsup'⟩ := aluSet_wf_sup kind hip n csc L _ hw
+    exact jacobian_view procs m t hb hk hv hparam n csc L _ hw' (fun x hx => hsup' x (hsup x hx))
+
+/-! ## 5. the stages of one attempt -/
+
+/-- a logical dense matrix with `nCells` rows of `n` entries -/
+def MatShape (nCells n : Nat) (M : Mat K) : Prop :=
+  M.size = nCells ∧ ∀ c, c < nCells → (M.getD c #[]).size = n
+
+theorem getD_lt {β : Type} (a : Array β) (c : Nat) (d : β) (h : c < a.size) : a.getD c d = a[c] := by
+  simp [Array.getD, h]
+
+theorem mat_ext_getD {A B : Mat K} (hs : A.size = B.size)
+    (h : ∀ c, c < A.size → A.getD c #[] = B.getD c #[]) : A = B := by
+  apply Array.ext hs
+  intro c h1 h2
+  have := h c h1
+  simpa [Array.getD, h1, h2] using this
+
+theorem MatShape.axpyM {nCells n : Nat} {y : Mat K} (hy : MatShape nCells n y) (a : K) (x : Mat K) :
+    MatShape nCells n (axpyM a x y) := by
+  refine ⟨by rw [axpyM_size]; exact hy.1, fun c hc => ?_⟩
+  rw [axpyM_getD _ _ _ _ (by rw [hy.1]; exact hc), axpyRow_size]
+  exact hy.2 c hc
+
+theorem MatShape.axpy_fold {nCells n : Nat} {F : Mat K} (hF : MatShape nCells n F) (coef : Nat → K)
+    (X : Nat → Mat K) (l : List Nat) :
+    MatShape nCells n (l.foldl (fun ks j => Micm.axpyM (coef j) (X j) ks) F) := by
+  induction l generalizing F with
+  | nil => exact hF
+  | cons j l ih => exact ih (hF.axpyM _ _)
+
+theorem MatShape.fillM {nCells n : Nat} {M : Mat K} (hM : MatShape nCells n M) (v : K) :
+    MatShape nCells n (fillM M v) := by
+  refine ⟨by simp [Micm.fillM, hM.1], fun c hc => ?_⟩
+  have hc' : c < M.size := by rw [hM.1]; exact hc
+  have := hM.2 c hc
+  rw [getD_lt _ _ _ hc'] at this
+  simp [Micm.fillM, Array.getD, hc', this]
+
+theorem MatShape.forcing {nCells n : Nat} {f : Mat K} (hf : MatShape nCells n f) (s : SolverCfg K)
+    (k y : Mat K) : MatShape nCells n (s.forcing k y f) := by
+  refine ⟨by simp [SolverCfg.forcing, hf.1], fun c hc => ?_⟩
+  have hc' : c < f.size := by rw [hf.1]; exact hc
+  have := hf.2 c hc
+  rw [getD_lt _ _ _ hc'] at this
+  simp [SolverCfg.forcing, Array.getD, hc', C01_frame_size, this]
+
+theorem MatShape.linSolve {nCells n : Nat} {x : Mat K} (hx : MatShape nCells n x) (s : SolverCfg K)
+    (J Lo Up : Mat K) : MatShape nCells n (s.linSolve J Lo Up x) := by
+  refine ⟨by rw [linSolve_size]; exact hx.1, fun c hc => ?_⟩
+  have hc' : c < x.size := by rw [hx.1]; exact hc
+  have := hx.2 c hc
+  rw [getD_lt _ _ _ hc'] at this
+  unfold SolverCfg.linSolve
+  split <;> simp [Array.getD, hc', solveCell_size, solveInPlaceCell_size, this]
+
+/-- every stage vector held in `K` has the logical shape -/
+def KShape (nCells n : Nat) (Ks : Array (Mat K)) : Prop :=
+  ∀ j, j < Ks.size → MatShape nCells n (Ks.getD j #[])
+
+theorem KShape.set {nCells n : Nat} {Ks : Array (Mat K)} (h : KShape nCells n Ks) (i : Nat) (M : Mat K)
+    (hM : MatShape nCells n M) : KShape nCells n (Ks.setIfInBounds i M) := by
+  intro j hj
+  rw [Array.size_setIfInBounds] at hj
+  by_cases hij : i = j
+  · subst hij; rw [getD_set_eq _ _ _ _ hj]; exact hM
+  · rw [getD_set_ne _ _ _ _ _ hij]; exact h j hj
+
+theorem forcing_congr_tables (s₁ s₂ : SolverCfg K) (ht : s₁.tables = s₂.tables) (k y f : Mat K) :
+    s₁.forcing k y f = s₂.forcing k y f := by
+  unfold SolverCfg.forcing; rw [ht]
+
+theorem stagePre_congr_tables (s₁ s₂ : SolverCfg K) (ht : s₁.tables = s₂.tables) (p : RosParams K)
+    (kc Y : Mat K) (stage : Nat) (Ks : Array (Mat K)) (ynew : Mat K) (st : Stats) :
+    stagePre s₁ p kc Y stage Ks ynew st = stagePre s₂ p kc Y stage Ks ynew st := by
+  unfold stagePre
+  simp only [forcing_congr_tables s₁ s₂ ht]
+
+theorem stagePre_shape (s : SolverCfg K) (p : RosParams K) (kc Y : Mat K) (stage : Nat)
+    (Ks : Array (Mat K)) (ynew : Mat K) (st : Stats) {nCells n : Nat} (hK : KShape nCells n Ks) :
+    KShape nCells n (stagePre s p kc Y stage Ks ynew st).1 := by
+  unfold stagePre
+  split
+  · exact hK
+  · split
+    · by_cases hs : stage < Ks.size
+      · exact hK.set _ _ (((hK stage hs).fillM 0).forcing s _ _)
+      · show KShape nCells n (Ks.setIfInBounds stage _)
+        rw [Array.setIfInBounds_eq_of_size_le (by omega)]; exact hK
+    · exact hK
+
+theorem stageCopy_shape (p : RosParams K) (stage : Nat) (Ks : Array (Mat K)) {nCells n : Nat}
+    (hK : KShape nCells n Ks) (hs : stage < Ks.size) : KShape nCells n (stageCopy p stage Ks) := by
+  unfold stageCopy
+  by_cases hcond : (decide (stage + 1 < p.stages) && !(p.newF.getD (stage + 1) false)) = true
+  · rw [if_pos hcond]; exact hK.set _ _ (hK stage hs)
+  · rw [if_neg hcond]; exact hK
+
+theorem stageRhs_shape (p : RosParams K) (h : K) (stage : Nat) (Ks : Array (Mat K)) {nCells n : Nat}
+    (hK : KShape nCells n Ks) (hs : stage < Ks.size) : MatShape nCells n (stageRhs p h stage Ks) := by
+  unfold stageRhs
+  exact (hK stage hs).axpy_fold _ _ _
+
+/-- **the stage loop depends on the configuration only through the forcing tables and the
+    `Factor; Solve` map**: if two configurations share the tables and their `linSolve` (with
+    their own factor storage) agree on every right-hand side of the logical shape, the stage
+    loops return the same stage vectors, the same `ynew` and the same statistics. -/
+theorem stagesGo_config_indep (s₁ s₂ : SolverCfg K) (ht : s₁.tables = s₂.tables) (p : RosParams K)
+    (kc Y J₁ Lo₁ Up₁ J₂ Lo₂ Up₂ : Mat K) (h : K) (nCells n : Nat)
+    (hsolve : ∀ x, MatShape nCells n x → s₁.linSolve J₁ Lo₁ Up₁ x = s₂.linSolve J₂ Lo₂ Up₂ x)
+    (fuel stage : Nat) (Ks : Array (Mat K)) (ynew : Mat K) (st : Stats)
+    (hK : KShape nCells n Ks) (hsz : stage + fuel ≤ Ks.size) :
+    stagesGo s₁ p kc Y J₁ Lo₁ Up₁ h fuel stage Ks ynew st
+      = stagesGo s₂ p kc Y J₂ Lo₂ Up₂ h fuel stage Ks ynew st := by
+  induction fuel generalizing stage Ks ynew st with
+  | zero => rfl
+  | succ fuel ih =>
+    rw [stagesGo_succ, stagesGo_succ, ← stagePre_congr_tables s₁ s₂ ht]
+    have hpre := stagePre_shape s₁ p kc Y stage Ks ynew st hK
+    have hpsz := stagePre_size s₁ p kc Y stage Ks ynew st
+    generalize stagePre s₁ p kc Y stage Ks ynew st = pre at hpre hpsz
+    have hcp := stageCopy_shape p stage pre.1 hpre (by omega)
+    have hcsz := stageCopy_size p stage pre.1
+    have hrhs := stageRhs_shape p h stage _ hcp (by omega)
+    rw [← hsolve _ hrhs]
+    apply ih
+    · exact hcp.set _ _ (hrhs.linSolve s₁ _ _ _)
+    · rw [Array.size_setIfInBounds]; omega
+
+/-- the `K` output of the stage loop does not depend on the incoming `ynew` buffer and counters -/
+theorem stagePre_fst_indep (s : SolverCfg K) (p : RosParams K) (kc Y : Mat K) (stage : Nat)
+    (Ks : Array (Mat K)) (ynew ynew' : Mat K) (st st' : Stats) :
+    (stagePre s p kc Y stage Ks ynew st).1 = (stagePre s p kc Y stage Ks ynew' st').1 := by
+  unfold stagePre
+  split
+  · rfl
+  · split <;> rfl
+
+theorem stagesGo_fst_indep (s : SolverCfg K) (p : RosParams K) (kc Y J Lo Up : Mat K) (h : K)
+    (fuel stage : Nat) (Ks : Array (Mat K)) (ynew ynew' : Mat K) (st st' : Stats) :
+    (stagesGo s p kc Y J Lo Up h fuel stage Ks ynew st).1
+      = (stagesGo s p kc Y J Lo Up h fuel stage Ks ynew' st').1 := by
+  induction fuel generalizing stage Ks ynew ynew' st st' with
+  | zero => rfl
+  | succ fuel ih =>
+    rw [stagesGo_succ, stagesGo_succ, stagePre_fst_indep s p kc Y stage Ks ynew ynew' st st']
+    exact ih _ _ _ _ _ _
+
+/-- **`Factor; Solve` on whole matrices**: two configurations whose matrices have the same logical
+    view in every cell solve every right-hand side of the logical shape identically. -/
+theorem linSolve_config_indep (s₁ s₂ : SolverCfg K) (kind₁ kind₂ : LUKind) (jac₁ jac₂ : Pattern)
+    (n : Nat) (hla₁ : s₁.la = LinAlg.build kind₁ jac₁) (hla₂ : s₂.la = LinAlg.build kind₂ jac₂)
+    (hn₁ : jac₁.n = n) (hn₂ : jac₂.n = n)
+    (hd₁ : kind₁.needsDiag = true → ∀ i, i < n → jac₁.zero? i i = false)
+    (hd₂ : kind₂.needsDiag = true → ∀ i, i < n → jac₂.zero? i i = false)
+    (M₁ Lo₁ Up₁ M₂ Lo₂ Up₂ : Mat K) (nCells : Nat) (hM₁ : M₁.size = nCells) (hM₂ : M₂.size = nCells)
+    (hs₁ : ∀ c, c < nCells → s₁.la.SizesOK (M₁.getD c #[]) (Lo₁.getD c #[]) (Up₁.getD c #[]))
+    (hs₂ : ∀ c, c < nCells → s₂.la.SizesOK (M₂.getD c #[]) (Lo₂.getD c #[]) (Up₂.getD c #[]))
+    (hpiv : ∀ c, c < nCells → ∀ i, i < n →
+      s₁.la.pivot (M₁.getD c #[]) (Lo₁.getD c #[]) (Up₁.getD c #[]) i ≠ 0)
+    (hview : ∀ c, c < nCells → ∀ r c', r < n → c' < n →
+      view s₁.la.A (M₁.getD c #[]) r c' = view s₂.la.A (M₂.getD c #[]) r c')
+    (x : Mat K) (hx : MatShape nCells n x) :
+    s₁.linSolve (s₁.factor M₁ Lo₁ Up₁).1 (s₁.factor M₁ Lo₁ Up₁).2.1 (s₁.factor M₁ Lo₁ Up₁).2.2 x
+      = s₂.linSolve (s₂.factor M₂ Lo₂ Up₂).1 (s₂.factor M₂ Lo₂ Up₂).2.1 (s₂.factor M₂ Lo₂ Up₂).2.2 x := by
+  apply mat_ext_getD (by rw [linSolve_size, linSolve_size])
+  intro c hc
+  rw [linSolve_size] at hc
+  have hcn : c < nCells := by rw [← hx.1]; exact hc
+  rw [linSolve_factor_getD s₁ _ _ _ _ c hc (by omega), linSolve_factor_getD s₂ _ _ _ _ c hc (by omega)]
+  apply arr_ext_rd (by rw [factorSolveCell_size, factorSolveCell_size])
+  intro j hj
+  rw [factorSolveCell_size, hx.2 c hcn] at hj
+  have h1 := hs₁ c hcn
+  have h2 := hs₂ c hcn
+  have h3 := hpiv c hcn
+  have h4 := hview c hcn
+  rw [hla₁] at h1 h3 h4 ⊢
+  rw [hla₂] at h2 h4 ⊢
+  exact factorSolve_config_indep kind₁ kind₂ jac₁ jac₂ n hn₁ hn₂ hd₁ hd₂ _ _ _ _ _ _ _ h1 h2
+    (hx.2 c hcn) h3 h4 j hj
+
+/-! ### the shifted matrix `α·I − J` through the pattern -/
+
+/-- adding `a` on the diagonal ranks adds `a·I` to the logical view -/
+theorem view_shiftRow (p : Pattern) (hg : p.Good) (Jr : Array K) (hsz : Jr.size = p.nnz) (a : K)
+    (r c : Nat) (hdiag : r = c → p.zero? r r = false) :
+    view p (shiftRow p.diagRanks Jr a) r c = view p Jr r c + if r = c then a else 0 := by
+  cases hz : p.zero? r c
+  · obtain ⟨q, hq⟩ := (zero?_false_iff_rank p r c).mp hz
+    rw [view_present _ _ _ _ hz, view_present _ _ _ _ hz, rk_of_rank hq,
+      rd_shiftRow _ hg.diagRanks_nodup]
+    have hqs : q < Jr.size := by rw [hsz]; exact hg.rank_lt hq
+    by_cases hrc : r = c
+    · subst hrc
+      have hm : q ∈ p.diagRanks := by
+        rw [hg.mem_diagRanks]
+        exact ⟨r, by rw [← p.key_diag r]; exact (hg.rank_ok r r q).mp hq⟩
+      rw [if_pos ⟨hm, hqs⟩, if_pos rfl]
+    · have hm : q ∉ p.diagRanks := by
+        rw [hg.mem_diagRanks]
+        rintro ⟨i, hi⟩
+        rw [← p.key_diag i, ← hg.rank_ok] at hi
+        obtain ⟨h1, h2⟩ := hg.rank_inj hq hi
+        exact hrc (h1.trans h2.symm)
+      rw [if_neg (fun h => hm h.1), if_neg hrc, add_zero]
+  · rw [view_absent _ _ _ _ hz, view_absent _ _ _ _ hz]
+    have hrc : r ≠ c := fun h => by
+      have := hdiag h
+      subst h
+      rw [hz] at this; cases this
+    rw [if_neg hrc, add_zero]
+
+/-! ### configurations produced by the builder -/
+
+/-- the element set of the pattern of `state.jacobian_` for each variant -/
+def cfgSet (kind : LUKind) (n : Nat) (csc : Bool) (L : Nat) (set : List Pair) : List Pair :=
+  if kind.inPlace then aluSet kind (Pattern.mk' n csc L set) else set
+
+theorem build_A_cfgSet (kind : LUKind) (n : Nat) (csc : Bool) (L : Nat) (set : List Pair) :
+    (LinAlg.build kind (Pattern.mk' n csc L set)).A = Pattern.mk' n csc L (cfgSet kind n csc L set) :=
+  build_A_eq kind n csc L set
+
+theorem cfgSet_wf_sup (kind : LUKind) (n : Nat) (csc : Bool) (L : Nat) (set : List Pair) (hw : WF n set) :
+    WF n (cfgSet kind n csc L set) ∧ ∀ x ∈ set, x ∈ cfgSet kind n csc L set := by
+  unfold cfgSet
+  cases hip : kind.inPlace
+  · simp only [Bool.false_eq_true, if_false]; exact ⟨hw, fun _ h => h⟩
+  · simp only [if_true]; exact aluSet_wf_sup kind hip n csc L set hw
+
+/-- what the builder (`mkCfg` of `Micm/Model/Driver.lean`) produces for one configuration:
+    `n` species, forcing/Jacobian tables `t`, storage order `csc`, sparse group length `Ls`
+    (the source pairs it with the dense group length `s.L`), LU variant `kind` -/
+structure BuiltCfg (s : SolverCfg K) (t : PSTables K) (n : Nat) (csc : Bool) (Ls : Nat)
+    (kind : LUKind) : Prop where
+  nSpecies : s.nSpecies = n
+  tables : s.tables = t
+  la : s.la = LinAlg.build kind (Pattern.mk' n csc Ls (buildJacobianSet n t.nonZeroJacobianElements))
+  flat : t.jacobianFlatIds s.la.A = .ok s.flatIds
+  diag : s.diag = s.la.A.diagRanks
+
+theorem jacobian_size (s : SolverCfg K) (kc Y J : Mat K) : (s.jacobian kc Y J).size = J.size := by
+  simp [SolverCfg.jacobian]
+
+theorem jacobian_getD (s : SolverCfg K) (kc Y J : Mat K) (c : Nat) (hc : c < J.size) :
+    (s.jacobian kc Y J).getD c #[]
+      = s.tables.subtractJacobianCell s.flatIds (kc.getD c #[]) (Y.getD c #[]) (J.getD c #[]) := by
+  simp [SolverCfg.jacobian, Array.getD, hc]
+
+theorem fillM_size (B : Mat K) (v : K) : (fillM B v).size = B.size := by simp [fillM]
+
+theorem fillM_getD (B : Mat K) (v : K) (c : Nat) (hc : c < B.size) :
+    (fillM B v).getD c #[] = Array.replicate (B.getD c #[]).size v := by
+  apply Array.ext
+  · simp [fillM, Array.getD, hc]
+  · intro i h1 h2
+    simp [fillM, Array.getD, hc]
+
+theorem alphaMinusJacobian_size (s : SolverCfg K) (J : Mat K) (a : K) :
+    (s.alphaMinusJacobian J a).size = J.size := by simp [alphaMinusJacobian_eq]
+
+theorem alphaMinusJacobian_getD (s : SolverCfg K) (J : Mat K) (a : K) (c : Nat) (hc : c < J.size) :
+    (s.alphaMinusJacobian J a).getD c #[] = shiftRow s.diag (J.getD c #[]) a := by
+  simp [alphaMinusJacobian_eq, Array.getD, hc]
+
+/-- **the matrix of an attempt, logically.**  For a built configuration (any variant, CSR/CSC,
+    any group length), cell `c` of `α·I − J(Y)` as the model forms it
+    (`alphaMinusJacobian (jacobian kc Y (zeroed B)) α`, cf. `C05_matrix_step`) has the logical view
+    `−∂f_r/∂y_c' + α·[r = c']` — an expression in which the configuration does not occur. -/
+theorem built_matrix_view (procs : List (Process K)) (m : NameMap) (t : PSTables K)
+    (hb : ProcessSet.build procs m = .ok t)
+    (hk : (m.map (·.1)).Nodup) (hv : (m.map (·.2)).Nodup)
+    (hparam : ∀ p ∈ procs, ∀ r ∈ p.reactants, r.param = true → nmLookup m r.name = none)
+    (n : Nat) (hn : ∀ e ∈ m, e.2 < n) (s : SolverCfg K) (csc : Bool) (Ls : Nat) (kind : LUKind)
+    (hs : BuiltCfg s t n csc Ls kind) (kc Y B : Mat K) (a : K) (c : Nat) (hc : c < B.size)
+    (hB : (B.getD c #[]).size = s.la.A.nnz) (r c' : Nat) (hr : r < n) :
+    ((s.alphaMinusJacobian (s.jacobian kc Y (fillM B 0)) a).getD c #[]).size = s.la.A.nnz ∧
+    view s.la.A ((s.alphaMinusJacobian (s.jacobian kc Y (fillM B 0)) a).getD c #[]) r c'
+      = - jacEntrySpec procs m (kc.getD c #[]) (Y.getD c #[]) r c' + if r = c' then a else 0 := by
+  have hw : WF n (buildJacobianSet n t.nonZeroJacobianElements) :=
+    jac_buildJacobianSet_WF procs m t hb n hn
+  obtain ⟨hw', hsup'⟩ := cfgSet_wf_sup kind n csc Ls _ hw
+  have hA : s.la.A = Pattern.mk' n csc Ls (cfgSet kind n csc Ls (buildJacobianSet n t.nonZeroJacobianElements)) := by
+    rw [hs.la]; exact build_A_cfgSet _ _ _ _ _
+  have hg := good_mk hw' csc Ls
+  obtain ⟨flat, hflat, hview⟩ := jacobian_view procs m t hb hk hv hparam n csc Ls _ hw'
+    (fun x hx => hsup' x ((jac_mem_buildJacobianSet n _ x).mpr (Or.inl hx)))
+  have hfl : flat = s.flatIds := by
+    have := hs.flat
+    rw [hA, hflat] at this
+    exact Except.ok.inj this
+  subst hfl
+  rw [alphaMinusJacobian_getD _ _ _ _ (by rw [jacobian_size, fillM_size]; exact hc),
+    jacobian_getD _ _ _ _ _ (by rw [fillM_size]; exact hc), fillM_getD _ _ _ hc, hs.diag, hs.tables, hB, hA]
+  have hsz : (t.subtractJacobianCell s.flatIds (kc.getD c #[]) (Y.getD c #[])
+      (Array.replicate (Pattern.mk' n csc Ls (cfgSet kind n csc Ls
+        (buildJacobianSet n t.nonZeroJacobianElements))).nnz 0)).size
+      = (Pattern.mk' n csc Ls (cfgSet kind n csc Ls (buildJacobianSet n t.nonZeroJacobianElements))).nnz := by
+    rw [show ∀ J : Array K, (t.subtractJacobianCell s.flatIds (kc.getD c #[]) (Y.getD c #[]) J).size
+      = J.size from fun J => jacGo_size _ _ _ _ _ _ J]; simp
+  refine ⟨by rw [shiftRow_size, hsz], ?_⟩
+  rw [view_shiftRow _ hg _ hsz a r c' ?_, hview]
+  intro hrc
+  exact (zero?_mk_iff hw' csc Ls r r).mpr
+    (hsup' _ ((jac_mem_buildJacobianSet n _ (r, r)).mpr (Or.inr ⟨rfl, hr⟩)))
+
+/-! ### one attempt -/
+
+/-- **one attempt is configuration independent** (exact arithmetic).  Two configurations with the
+    same forcing tables and species count — any two LU variants on any two patterns of block size
+    `n`, any two dense layouts `s₁.L`, `s₂.L` — started from states that agree on the logical data
+    (`Y`, step-size control, stage vectors, initial forcing, error buffer) and whose attempt matrices
+    have the same logical view in every cell, with no vanishing pivot: the stage vectors `K_i`, the
+    new solution, the error estimate, the error norm and the accept/reject decision with the new
+    step size all coincide. -/
+theorem attempt_config_indep (o : Ops K) (cs : Consts K) (p : RosParams K) (kc : Mat K)
+    (atol : Array K) (rtol hm : K)
+    (s₁ s₂ : SolverCfg K) (kind₁ kind₂ : LUKind) (jac₁ jac₂ : Pattern)
+    (n : Nat) (hla₁ : s₁.la = LinAlg.build kind₁ jac₁) (hla₂ : s₂.la = LinAlg.build kind₂ jac₂)
+    (hn₁ : jac₁.n = n) (hn₂ : jac₂.n = n)
+    (hd₁ : kind₁.needsDiag = true → ∀ i, i < n → jac₁.zero? i i = false)
+    (hd₂ : kind₂.needsDiag = true → ∀ i, i < n → jac₂.zero? i i = false)
+    (ht : s₁.tables = s₂.tables) (hns : s₁.nSpecies = s₂.nSpecies)
+    (r₁ r₂ : RState K) (hY : r₁.Y = r₂.Y) (hctl : r₁.ctl = r₂.ctl) (hk : r₁.sc.k = r₂.sc.k)
+    (hf0 : r₁.sc.f0 = r₂.sc.f0) (hyerr : r₁.sc.yerr = r₂.sc.yerr)
+    (nCells : Nat) (hKs : KShape nCells n r₁.sc.k) (hf0s : MatShape nCells n r₁.sc.f0)
+    (hst : p.stages ≤ r₁.sc.k.size)
+    (hM₁ : (attMatrix s₁ p r₁).size = nCells) (hM₂ : (attMatrix s₂ p r₂).size = nCells)
+    (hs₁ : ∀ c, c < nCells → s₁.la.SizesOK ((attMatrix s₁ p r₁).getD c #[])
+      (r₁.sc.lower.getD c #[]) (r₁.sc.upper.getD c #[]))
+    (hs₂ : ∀ c, c < nCells → s₂.la.SizesOK ((attMatrix s₂ p r₂).getD c #[])
+      (r₂.sc.lower.getD c #[]) (r₂.sc.upper.getD c #[]))
+    (hpiv : ∀ c, c < nCells → ∀ i, i < n → s₁.la.pivot ((attMatrix s₁ p r₁).getD c #[])
+      (r₁.sc.lower.getD c #[]) (r₁.sc.upper.getD c #[]) i ≠ 0)
+    (hview : ∀ c, c < nCells → ∀ r c', r < n → c' < n →
+      view s₁.la.A ((attMatrix s₁ p r₁).getD c #[]) r c'
+        = view s₂.la.A ((attMatrix s₂ p r₂).getD c #[]) r c') :
+    (attStages s₁ p kc r₁).1 = (attStages s₂ p kc r₂).1 ∧
+    attYnew s₁ p kc r₁ = attYnew s₂ p kc r₂ ∧
+    attYerr s₁ p kc r₁ = attYerr s₂ p kc r₂ ∧
+    attError o cs s₁ p kc atol rtol r₁ = attError o cs s₂ p kc atol rtol r₂ ∧
+    attDecide o cs s₁ p kc atol rtol hm r₁ = attDecide o cs s₂ p kc atol rtol hm r₂ := by
+  have hK : (attStages s₁ p kc r₁).1 = (attStages s₂ p kc r₂).1 := by
+    unfold attStages attFactor
+    have hsolve := fun x hx => linSolve_config_indep s₁ s₂ kind₁ kind₂ jac₁ jac₂ n hla₁ hla₂ hn₁ hn₂
+      hd₁ hd₂ (attMatrix s₁ p r₁) r₁.sc.lower r₁.sc.upper (attMatrix s₂ p r₂) r₂.sc.lower r₂.sc.upper
+      nCells hM₁ hM₂ hs₁ hs₂ hpiv hview x hx
+    have h1 := stagesGo_config_indep s₁ s₂ ht p kc r₁.Y _ _ _ _ _ _ r₁.ctl.h nCells n hsolve
+      p.stages 0 (r₁.sc.k.setIfInBounds 0 r₁.sc.f0) r₁.sc.ynew
+      { r₁.stats with decompositions := r₁.stats.decompositions + 1 }
+      (hKs.set 0 _ hf0s) (by rw [Array.size_setIfInBounds]; omega)
+    rw [h1, ← hY, ← hctl, ← hk, ← hf0]
+    exact stagesGo_fst_indep _ _ _ _ _ _ _ _ _ _ _ _ _ _ _
+  have hYn : attYnew s₁ p kc r₁ = attYnew s₂ p kc r₂ := by
+    unfold attYnew; rw [hK, hY]
+  have hYe : attYerr s₁ p kc r₁ = attYerr s₂ p kc r₂ := by
+    unfold attYerr; rw [hK, hyerr]
+  have hE : attError o cs s₁ p kc atol rtol r₁ = attError o cs s₂ p kc atol rtol r₂ := by
+    unfold attError
+    rw [normalizedError_layout_indep o cs s₁.L, normalizedError_layout_indep o cs s₂.L, hYn, hYe, hY, hns]
+  refine ⟨hK, hYn, hYe, hE, ?_⟩
+  unfold attDecide
+  rw [hE, hctl]
 
 end Micm
